@@ -169,10 +169,27 @@ CHECKS = {
   text='Metamorphic checks by bounded symbolic execution of the real parsers: parse/serialise/re-parse identity for '
        'QuotedString, AString, Flag, Number, SequenceSet over all buffers up to the bound; LOGIN with the user id '
        'spelled as atom/quoted/{n}/{n+} (continuation loop replayed) yields the same value for all values up to the '
-       'bound; command-word case as 6 symbolic bits; mailbox names (printable ASCII incl. &) round-trip through '
-       'modified UTF-7; sequence sets with symbolic numbers round-trip; SequenceSet.build denotes exactly its input.',
-  note=TRUST + 'Outside: date-time (strptime), non-ASCII mailbox names (C utf-7 codec), end-to-end command effects.',
+       'bound, at parser level and through the real connection loop (readline / read_continuation, all 16 spelling pairs of the two '
+       'LOGIN arguments, value also as last argument of the line); command-word case as 6 symbolic bits; mailbox names (any code points '
+       'except surrogates up to the bound, printable ASCII longer) round-trip through modified UTF-7 (exact codec models); sequence sets '
+       'with symbolic numbers round-trip; SequenceSet.build denotes exactly its input.',
+  note=TRUST + 'Outside: date-time (strptime), case mapping outside ASCII, end-to-end command effects beyond the tagged result.',
   technique='symbolic execution of the real parsers/serialisers with z3, metamorphic oracles'),
+ 'C20': dict(
+  engine='z3-bmc + pysymex',
+  text='The schedule is the solver variable: pymap\'s _AsyncioReadWriteLock is compiled from its current source (AST) into a '
+       'guarded-command program; z3 BMC over T tasks x S scheduler steps with symbolic task kinds (reader/writer) and a symbolic action '
+       'per step (run the head of the FIFO ready queue, start a task, open the gate of a task parked in its critical section, cancel a '
+       'task; at most one cancellation): no step with a writer inside beside anyone, no release of an unlocked lock, no reachable '
+       'deadlock, unwinding assertion; quick T<=3 S<=10-12, thorough T<=4 S<=11-15. The asyncio.Lock/Task/Future model is validated by '
+       'co-simulation with the REAL class stepped one asyncio handle at a time on 1500-6000 random schedules; every counterexample is '
+       'replayed on the real class. FileLock: the real write_lock/read_lock code under pysymex with a stub file system, a symbolic '
+       'non-decreasing clock below the expiration and a solver-driven interleaving of two tasks: never two writers inside, lock file '
+       'absent afterwards, also when the critical section raises.',
+  note='Trusted: z3; the asyncio primitive model (validated by co-simulation and counterexample replay on real asyncio); cooperative '
+       'scheduling (a task step is atomic between suspension points). The BMC covers prefixes of executions up to S steps. Outside: the '
+       'threading subsystem, FileLock expiry races (critical sections are assumed shorter than `expiration`), more than 4 tasks.',
+  technique='z3 bounded model checking of an automaton compiled from the source, symbolic schedule; symbolic execution for FileLock'),
 }
 
 NA = {
@@ -215,9 +232,12 @@ def main():
                                       '--timeout=900 --continue-on-collection-errors',
                   'source_commits': [], 'add_only': True},
         'engines': [{'name': 'pysymex', 'path': 'pysymex/',
-                     'serves_properties': sorted(k for k, v in CHECKS.items() if v.get('engine', 'pysymex') == 'pysymex'),
+                     'serves_properties': sorted(k for k, v in CHECKS.items() if 'pysymex' in v.get('engine', 'pysymex')),
                      'kind_free_text': 're-execution based symbolic executor for the real pymap modules (z3; '
-                                       'shape-concrete, value-symbolic proxies; instrumented import loader)'}],
+                                       'shape-concrete, value-symbolic proxies; instrumented import loader)'},
+                    {'name': 'z3-bmc', 'path': 'checks/c20.py, checks/c20_model.py', 'serves_properties': ['C20'],
+                     'kind_free_text': 'AST-to-automaton compiler for the asyncio read-write lock + z3 bounded model checker '
+                                       'with a symbolic schedule; co-simulation driver stepping a real asyncio loop handle by handle'}],
         'checks': checks,
         'notes': 'exit 2 = inconclusive / harness error (never a pass). known_findings.json lists recorded findings '
                  'and fix: commits. VERIF_VERBOSE=1 prints per-harness statistics.',
